@@ -2,14 +2,15 @@ SPECIFICATION Spec
 VIEW view
 CONSTANTS
   Uris = {"u1"}
-  Texts = {"t1"}
-  MaxMsgs = 3
-  MsgKinds = {"open","change","close","save"}
-  MaxCfg = 0
+  Texts = {"t1","t2"}
+  MaxMsgs = 2
+  MsgKinds = {"change","close","cfg"}
+  MaxCfg = 1
   MaxDisk = 0
   OnDisk = {}
   InlineOpen = TRUE
   InlineChange = TRUE
   InlineClose = TRUE
-  EnableReindex = TRUE
+  EnableReindex = FALSE
+  InitOpen = {"u1"}
 INVARIANTS Emit
